@@ -103,7 +103,7 @@ def generate(tier, seed):
     for i in range(n):
         sp = gen_spec(rnd)
         stoch = (i % 2 == 1)
-        cases.append({"spec": sp, "stochastic": stoch, "states": states_for(rnd, sp, stoch)})
+        cases.append({"spec": sp, "stochastic": stoch, "states": states_for(rnd, sp, stoch), "prior_export": [None, "other", "fresh"][i % 3]})
     return cases
 
 
@@ -125,6 +125,14 @@ def run_case(case):
     nontrivial = False
     try:
         path = os.path.join(tmp, "m.xml")
+        if case.get("prior_export", "other") is not None:
+            # history: the same model (or an identical freshly built one) was exported before in the OTHER mode in this process
+            try:
+                (M if case.get("prior_export", "other") == "other" else specmod.build_model(sp, "ctor")).write_sbml_model(
+                    os.path.join(tmp, "prior.xml"), stochastic_model=not case["stochastic"])
+                C["exports_after_an_export_in_the_other_mode"] += 1
+            except Exception:
+                pass
         try:
             M.write_sbml_model(path, stochastic_model=case["stochastic"])
         except Exception as e:
